@@ -144,16 +144,39 @@ def run(ctx):
     # ---- L4 start/end/key completeness ---------------------------------------------------------
     l4 = ctx.rule("GUARD.L4-nodes", "find_node compares all three key components; new_node stores its key unmodified and merges end frames / best exit in the right direction; start (end) candidates are nodes at frame 0 with exits (last frame with entries); a candidate list is dereferenced only when it has exactly one element", floor=12)
     g = fns["find_node"]
+    # path by path over values (symx.run_paths): whatever node is returned has been compared equal on all
+    # three components, and no path gives up (NULL) on a node that matched all three
+    from .. import symx, lin
     conds = set()
-    for b in g.find("Break"):
-        blk = paths.pos_of(g, b)[0]
-        # all conditions that must be true on every path to break
-        for (s0, d0, cc, pol) in g.cfg.cond_edges():
-            if pol and paths.guarded(g, b, lambda fn, c2, p2, cc=cc: c2 == cc and p2):
-                r = paths.rel(g, cc, True, subst=False)
-                if r:
-                    conds.add(tuple(sorted((r[0], r[2]))) + (r[1],))
-    want = {("node->sf", "sf", "=="), ("node->wid", "wid", "=="), ("node->node_id", "node_id", "==")}
+    want = {("sf", "sf", "=="), ("wid", "wid", "=="), ("node_id", "node_id", "==")}
+    okp = True
+    npaths = 0
+    for pt in symx.run_paths(g, P):
+        if pt.end != "exit":
+            continue
+        npaths += 1
+        R = lin.p_str(pt.ret) if pt.ret is not None else None
+        eqs = {}
+        for k_, v_ in pt.atoms.items():
+            if k_[0] == "==" and v_:
+                for a_, b_ in ((k_[1], k_[2]), (k_[2], k_[1])):
+                    m_ = re.match(r"^(.*)->(\w+)$", a_)
+                    if m_ and b_ in ("sf", "wid", "node_id"):
+                        eqs.setdefault(m_.group(1), set()).add((m_.group(2), b_, "=="))
+        isnull = R in ("0", None) or pt.atoms.get(("nz", R)) is False
+        if isnull:
+            if any(v_ == want for v_ in eqs.values()):
+                okp = False
+                conds.add(("gives-up-on-a-match",))
+        else:
+            got = eqs.get(R, set())
+            if got != want:
+                okp = False
+                conds |= {tuple(x) for x in got} or {("none",)}
+    if npaths < 3:
+        raise AnalysisIncomplete("find_node: %d value paths" % npaths)
+    if okp:
+        conds = want
     ctx.check(l4, conds == want, key(g, "key"), g.where(g.root), "find_node matches on %s, expected all of (sf, wid, node_id): distinct word instances would be merged" % sorted(conds))
     g = fns["new_node"]
     fc = g.calls("find_node")
